@@ -163,3 +163,8 @@ func VerifHarness_C10_O3() {
 	}
 	verifReach("end")
 }
+
+// C10/O4 — only peers in a round's set have block signatures accepted for it
+// (same obligation as C09/O1, whose validator-set history has a removed and a
+// not-yet-effective validator).
+func VerifHarness_C10_O4() { VerifHarness_C09_O1() }
